@@ -76,6 +76,29 @@ def anchor_universe() -> dict:
     ]
     types.append({"ns": ["anchor"], "name": "Arr", "major": 1, "minor": 0, "port_id": None, "kind": "struct", "deprecated": False, "doc": [],
                   "body": {"union": False, "sealed": True, "extent_extra": 0, "attrs": arr_attrs}})
+    def td(name, attrs, union=False, sealed=True, kind=None, extent_bits=256):
+        return {"ns": ["anchor"], "name": name, "major": 1, "minor": 0, "port_id": None, "kind": kind or ("union" if union else "struct"), "deprecated": False, "doc": [],
+                "body": {"union": union, "sealed": sealed, "extent_extra": 1, "extent_bits": extent_bits, "attrs": attrs}}
+
+    def fld(name, t):
+        return {"k": "field", "type": t, "name": name, "doc": None}
+
+    def ref(name):
+        return {"t": "ref", "full": "anchor." + name, "major": 1, "minor": 0}
+
+    types.append(td("Inner", [fld("x", prim("uint", 3)), fld("y", {"t": "varr", "elem": prim("int", 5), "cap": 2, "incl": True})], sealed=False))
+    types.append(td("Uni", [fld("a", {"t": "varr", "elem": prim("uint", 8), "cap": 3, "incl": True}), fld("b", {"t": "bool"}), fld("c", prim("float", 16)), fld("d", ref("Inner")), fld("e", {"t": "varr", "elem": ref("Inner"), "cap": 2, "incl": True})], union=True))
+    types.append(td("Outer", [fld("f0", prim("uint", 5)), fld("us", {"t": "varr", "elem": ref("Uni"), "cap": 3, "incl": True}), fld("ins", {"t": "farr", "elem": ref("Inner"), "n": 2}), fld("u", ref("Uni")), fld("bits", {"t": "varr", "elem": {"t": "bool"}, "cap": 11, "incl": True})], sealed=False, extent_bits=8192))
+    consts = [
+        ("float", 64, "T64A", "1e-320"), ("float", 64, "T64B", "5e-324"), ("float", 64, "T64C", "2.2250738585072014e-308"), ("float", 64, "T64D", "1.7976931348623157e308"),
+        ("float", 64, "T64E", "1/3"), ("float", 32, "T32A", "1e-45"), ("float", 32, "T32B", "340282346638528859811704183484516925440.0"), ("float", 32, "T32C", "16777217.0"),
+        ("float", 16, "T16A", "6.0e-8"), ("float", 16, "T16B", "65504.0"), ("float", 16, "T16C", "1/3"),
+        ("int", 64, "I64MIN", "-9223372036854775808"), ("int", 64, "I64MAX", "9223372036854775807"), ("uint", 64, "U64MAX", "18446744073709551615"),
+        ("int", 33, "I33MIN", "-4294967296"), ("uint", 33, "U33MAX", "8589934591"), ("int", 8, "I8MIN", "-128"), ("uint", 17, "U17", "131071"), ("int", 2, "I2", "-2"),
+    ]
+    cattrs = [{"k": "const", "type": prim(k, b), "name": n, "value": v} for k, b, n, v in consts]
+    cattrs += [{"k": "const", "type": {"t": "bool"}, "name": "BT", "value": "true"}, {"k": "const", "type": {"t": "bool"}, "name": "BF", "value": "false"}, fld("v", prim("uint", 8))]
+    types.append(td("Consts", cattrs))
     return {"roots": [{"name": "anchor", "types": types}]}
 
 
@@ -93,6 +116,13 @@ def job_strategy(draw, spec: dict, fixed_universe: typing.Optional[dict] = None)
             targets += draw(st.lists(st.sampled_from(c_pool), min_size=n_c, max_size=n_c, unique=True))
         if n_cpp:
             targets += draw(st.lists(st.sampled_from(cpp_pool), min_size=n_cpp, max_size=n_cpp, unique=True))
+        if fixed_universe is not None:
+            # the anchor is always run on the flavours whose code differs structurally
+            for k in ("cpp|c++17-pmr|any|0|vector", "cpp|c++14|little|1|vector", "c|little|1|0", "c|any|0|0"):
+                if k.split("|")[0] == "c" and not n_c or k.split("|")[0] == "cpp" and not n_cpp:
+                    continue
+                if k not in targets and spec.get("c_filter", lambda k: True)(k):
+                    targets.append(k)
         if spec.get("py", True):
             targets.append("py")
         cases: typing.List[dict] = []
